@@ -310,8 +310,6 @@ Proof.
       constructor; simpl; auto; try lia.
       * intros i Hi Hi2. apply Hlive; lia.
       * intros i Hi. destruct (Nat.le_gt_cases i (d_src st)); [apply S2|apply Hdead]; lia.
-      * destruct Hpend as [Hp|Hp]; [left; exact Hp|right; lia].
-      * unfold lview in *. simpl. exact Hperm.
     + specialize (S3 ltac:(lia)).
       destruct (do_move_view n L0 dst st s HJ0 ltac:(lia) ltac:(lia)) as [Hv [Hc Hp]].
       destruct (do_move_live n L0 dst st s HJ0 ltac:(lia) ltac:(lia) El S3 S2) as [Hl1 Hl2].
